@@ -21,6 +21,8 @@ UNITS += _take('C02', ['subscribe_check_ready', 'resume_chain_set_ready', 'resum
 UNITS += _take('C07', ['ready', 'subscribe', 'unlock_rel', 'unlock_del', 'own_release', 'try_lock'])
 UNITS += _take('C06', ['add', 'ctor_handle', 'move_ctor', 'pop', 'ctor_default'])
 UNITS += _take('C04', ['caw_await_suspend', 'as_start_coro'])
+# merging into an inline point with a total of <= 3 handles (bounded shapes of C06; the clause is compiled in with CV_CHECK_C20)
+UNITS += _take('C06', [x['name'] for x in _load('C06').UNITS if x['name'].startswith('merge_bounded_quick_')])
 # known finding: in coroutine mode every made-ready coroutine is pushed on the thread's std::deque
 UNITS += _take('C05', ['resume'])
 if _os.path.exists(_os.path.join(_here, 'C13', 'READY')):
